@@ -6,7 +6,8 @@ Property theorems only (helpers: `Sqfs/Proofs/Unpack.lean`; model: `Sqfs/Model/U
 symlink targets, arbitrary order and repetition, arbitrary nesting), all option sets `fl`, every order `ord` the
 file list may be filled in, every unpack root `R` and every initial file system `fs₀` in which `R` is fresh.
 -/
-import Sqfs.Proofs.Unpack
+import Sqfs.Proofs.UnpackComplete
+import Sqfs.Proofs.UnpackWeak
 namespace Sqfs.C06
 open Sqfs.Path Sqfs.Unpack
 
@@ -98,8 +99,9 @@ theorem confinement_raw (raw : TNode) (fl : Flags) (tf : TreeFlags) (R : PathC) 
   confinement id (fun _ _ h => h) fl (decode tf raw) R fs₀ hfresh
 
 /-- **Inside R only tree nodes appear, as objects of their own kind**: after the run, whatever exists strictly
-    below `R` sits at the path of a visited tree node and is a directory / regular file / symlink / special file
-    according to that node's inode type (so e.g. nothing is ever written *through* an unpacked symlink). -/
+    below `R` sits at the path of a visited tree node and is a directory / regular file / symlink / block device /
+    character device / fifo / socket exactly according to that node's inode type (`kindMatch` relates each of the seven
+    kinds to its own sort of object only; so e.g. nothing is ever written *through* an unpacked symlink). -/
 theorem below_R_only_tree_nodes (ord : List FileEnt → List FileEnt) (hord : OrdOK ord) (fl : Flags) (t t' : TNode)
     (hs : treeSort t = .ok t') (R : PathC) (fs₀ : Fs) (hfresh : Fresh fs₀ R) (comps : List Bytes) (hne : comps ≠ []) :
     let fs := exec R fs₀ (unpackTree ord fl t).syscalls
@@ -135,6 +137,204 @@ theorem get_path_tests_redundant_behind_gate (c : Bytes) (h : isFilenameSane c =
     · exact hc
     · exact absurd ((badComp_false_iff c).2 ⟨hc, h3, h1, h2⟩) (by simp [hb])
   · intro hc; subst hc; rfl
+
+/-! ### the whole `OP_UNPACK` branch: `mkdir_p(R)`, `chdir(R)`, calls that fail -/
+
+/-- **Confinement whatever fails.**  Like `confinement`, with any of the calls failing for reasons of the environment
+    (`flt`: EPERM/EACCES of an unprivileged user, ENOSPC, EIO, … at any position): a failing call ends the run (or is a
+    tolerated `mkdir`/`EEXIST`), and everything that is not strictly below `R` is still exactly as it was. -/
+theorem confinement_under_faults (ord : List FileEnt → List FileEnt) (hord : OrdOK ord) (fl : Flags) (t : TNode) (R : PathC)
+    (fs₀ : Fs) (hfresh : Fresh fs₀ R) : ConfinedF R fs₀ (unpackTree ord fl t).syscalls := by
+  intro flt i
+  cases hs : treeSort t with
+  | error e => rw [unpackTree_dup ord fl t e hs]; rfl
+  | ok t' =>
+    exact (Inv.run (visitRoot_fun (treeSort_nodup t t' hs)) (visitRoot_prefix t') flt _ i fs₀ (Inv.fresh hfresh)
+      (unpackTree_ops ord hord fl t t' hs)).outside_eq
+
+/-- **`main`, end to end.**  For every tree, option set, fill order, `--unpack-root` argument (or none), initial working
+    directory and file system, and whatever calls fail: (1) when the walks start, the file system is the initial one plus
+    new empty directories — those `mkdir_p` made; (2) if the directory the process then stands in (`chdir(R)` resolved,
+    symbolic links followed) is fresh, the rest of the run leaves everything not strictly below it unchanged. -/
+theorem main_confinement (ord : List FileEnt → List FileEnt) (hord : OrdOK ord) (fl : Flags) (t : TNode) (root : Option Bytes)
+    (flt : Faults) (cwd₀ : PathC) (fs₀ : Fs) :
+    OnlyNewDirs fs₀ (unpackMain ord fl t root flt cwd₀ fs₀).fsEst ∧
+    (Fresh (unpackMain ord fl t root flt cwd₀ fs₀).fsEst (unpackMain ord fl t root flt cwd₀ fs₀).cwd →
+      outside (unpackMain ord fl t root flt cwd₀ fs₀).cwd (unpackMain ord fl t root flt cwd₀ fs₀).fs =
+        outside (unpackMain ord fl t root flt cwd₀ fs₀).cwd (unpackMain ord fl t root flt cwd₀ fs₀).fsEst) := by
+  refine ⟨main_fsEst_onlyNewDirs ord fl t root flt cwd₀ fs₀, fun hfresh => ?_⟩
+  cases he : (unpackMain ord fl t root flt cwd₀ fs₀).established with
+  | false => rw [(main_not_established ord fl t root flt cwd₀ fs₀ he).2.2]
+  | true =>
+    obtain ⟨t', i, hs, hfs, _⟩ := main_established ord fl t root flt cwd₀ fs₀ he
+    rw [hfs, ← unpackTree_eq ord fl hs]
+    exact confinement_under_faults ord hord fl t _ _ hfresh flt i
+
+/-- **If establishing R fails nothing is unpacked.**  When `tree_sort`, `mkdir_p(R)` or `chdir(R)` fails, no call of any
+    walk is made, the exit status is `EXIT_FAILURE`, and the file system is the initial one plus, at most, new empty
+    directories made by `mkdir_p` before it failed. -/
+theorem root_not_established_nothing_unpacked (ord : List FileEnt → List FileEnt) (fl : Flags) (t : TNode) (root : Option Bytes)
+    (flt : Faults) (cwd₀ : PathC) (fs₀ : Fs) (h : (unpackMain ord fl t root flt cwd₀ fs₀).established = false) :
+    (unpackMain ord fl t root flt cwd₀ fs₀).trace = [] ∧ (unpackMain ord fl t root flt cwd₀ fs₀).exit = 1 ∧
+    OnlyNewDirs fs₀ (unpackMain ord fl t root flt cwd₀ fs₀).fs := by
+  obtain ⟨h1, h2, h3⟩ := main_not_established ord fl t root flt cwd₀ fs₀ h
+  exact ⟨h1, h2, h3 ▸ main_fsEst_onlyNewDirs ord fl t root flt cwd₀ fs₀⟩
+
+/-- … and **nothing is written anywhere** when R was there already but cannot be entered (R is a regular file, a dangling
+    symbolic link, a directory the user may not enter, …): every `mkdir` of `mkdir_p` answered with an error (`EEXIST`),
+    `chdir` failed — the file system is exactly the initial one, no call of a walk is made, `EXIT_FAILURE`.
+    (rdsquashfs.c: the `goto out` after `perror(opt.unpack_root)`.) -/
+theorem failed_chdir_writes_nothing (ord : List FileEnt → List FileEnt) (fl : Flags) (t : TNode) (R : Bytes)
+    (flt : Faults) (cwd₀ : PathC) (fs₀ : Fs) (e : Errno)
+    (hc : (unpackMain ord fl t (some R) flt cwd₀ fs₀).chdirRes = some (some e))
+    (hpre : ∀ x ∈ (unpackMain ord fl t (some R) flt cwd₀ fs₀).pre, x.2 ≠ none) :
+    (unpackMain ord fl t (some R) flt cwd₀ fs₀).fs = fs₀ ∧ (unpackMain ord fl t (some R) flt cwd₀ fs₀).trace = [] ∧
+    (unpackMain ord fl t (some R) flt cwd₀ fs₀).exit = 1 := by
+  cases hs : treeSort t with
+  | error er => rw [unpackMain_dup hs] at hc; cases hc
+  | ok t' =>
+    cases hm : (mkdirP flt cwd₀ fs₀ R).failed with
+    | true => rw [unpackMain_mkdir_fail hs hm] at hc; cases hc
+    | false =>
+      cases hcd : chdirF (flt (mkdirPCuts R).length) (mkdirP flt cwd₀ fs₀ R).fs cwd₀ R with
+      | ok c => rw [unpackMain_ok hs hm hcd] at hc; cases hc
+      | error e' =>
+        rw [unpackMain_chdir_fail hs hm hcd] at hpre ⊢
+        exact ⟨run_no_success_fs flt cwd₀ _ 0 fs₀ hpre, rfl, rfl⟩
+
+/-- **A failing step ends the run with a non-zero exit status.**  A call of a walk that neither succeeds nor is a tolerated
+    `mkdir`/`EEXIST` is the last call the tool makes, and the exit status is `EXIT_FAILURE`.  (That nothing outside R was
+    touched up to there is `main_confinement`, which holds for every run.) -/
+theorem failing_step_ends_run (ord : List FileEnt → List FileEnt) (fl : Flags) (t : TNode) (root : Option Bytes)
+    (flt : Faults) (cwd₀ : PathC) (fs₀ : Fs) (x : Syscall × Option Errno)
+    (hx : x ∈ (unpackMain ord fl t root flt cwd₀ fs₀).trace) (hbad : ¬ Fine x) :
+    (unpackMain ord fl t root flt cwd₀ fs₀).exit = 1 ∧ ∃ pre, (unpackMain ord fl t root flt cwd₀ fs₀).trace = pre ++ [x] := by
+  cases he : (unpackMain ord fl t root flt cwd₀ fs₀).established with
+  | false => rw [(main_not_established ord fl t root flt cwd₀ fs₀ he).1] at hx; cases hx
+  | true =>
+    obtain ⟨t', i, _, _, htr, hex, _⟩ := main_established ord fl t root flt cwd₀ fs₀ he
+    rw [htr] at hx ⊢
+    obtain ⟨hf, hlast⟩ := run_bad_is_last flt _ _ i _ x hx hbad
+    exact ⟨by rw [hex, hf]; rfl, hlast⟩
+
+/-- the same for `mkdir_p`: a `mkdir` failing with anything but `EEXIST` is the last call of the whole run -/
+theorem failing_mkdir_p_ends_run (ord : List FileEnt → List FileEnt) (fl : Flags) (t : TNode) (R : Bytes)
+    (flt : Faults) (cwd₀ : PathC) (fs₀ : Fs) (x : Syscall × Option Errno)
+    (hx : x ∈ (unpackMain ord fl t (some R) flt cwd₀ fs₀).pre) (hbad : ¬ Fine x) :
+    (unpackMain ord fl t (some R) flt cwd₀ fs₀).exit = 1 ∧ (unpackMain ord fl t (some R) flt cwd₀ fs₀).chdirRes = none ∧
+    (unpackMain ord fl t (some R) flt cwd₀ fs₀).trace = [] ∧ ∃ pre, (unpackMain ord fl t (some R) flt cwd₀ fs₀).pre = pre ++ [x] := by
+  cases hs : treeSort t with
+  | error er => rw [unpackMain_dup hs] at hx; cases hx
+  | ok t' =>
+    rw [(main_pre ord fl t t' R flt cwd₀ fs₀ hs).1] at hx
+    obtain ⟨hf, hlast⟩ := run_bad_is_last flt _ _ 0 _ x hx hbad
+    rw [unpackMain_mkdir_fail hs hf]
+    exact ⟨rfl, rfl, rfl, hlast⟩
+
+/-- **Exit status 0 means the whole image was unpacked** (second half of "the rest of the image is still unpacked or the
+    tool fails"): if `main` returns `EXIT_SUCCESS` then the walks were reached, the plan had no error of its own, *every*
+    call of the plan was made and succeeded (or was a tolerated `mkdir`/`EEXIST`), and for every node the walks reach — every
+    node of the sorted tree not hidden below an entry with an insane name — the creating call, for a regular file the
+    `open(O_TRUNC)` that writes its *whole* content, and each of its `lsetxattr`/`utimensat`/`fchownat`/`fchmodat` calls are
+    among them.  The skip reports are exactly the refused entries, once per reporting walk (create, file list), in walk order. -/
+theorem success_means_everything_unpacked (ord : List FileEnt → List FileEnt) (hall : OrdAll ord) (fl : Flags) (t : TNode)
+    (hsane : isFilenameSane t.name = true) (root : Option Bytes) (flt : Faults) (cwd₀ : PathC) (fs₀ : Fs)
+    (h : (unpackMain ord fl t root flt cwd₀ fs₀).exit = 0) :
+    ∃ t', treeSort t = .ok t' ∧ (planSorted ord fl t').err = none ∧
+      (unpackMain ord fl t root flt cwd₀ fs₀).trace.map Prod.fst = (planSorted ord fl t').syscalls ∧
+      (∀ x ∈ (unpackMain ord fl t root flt cwd₀ fs₀).trace, Fine x) ∧
+      (∀ c n, (c, n) ∈ visitNRoot t' →
+        createNode n.kind (joinSlash c) n.payload n.attr fl ∈ (unpackMain ord fl t root flt cwd₀ fs₀).trace.map Prod.fst ∧
+        (n.kind = .reg → Syscall.openTrunc (joinSlash c) n.payload ∈ (unpackMain ord fl t root flt cwd₀ fs₀).trace.map Prod.fst) ∧
+        (∀ sc, Ev.sys sc ∈ (attrOps fl n.kind (joinSlash c) n.attr).evs →
+          sc ∈ (unpackMain ord fl t root flt cwd₀ fs₀).trace.map Prod.fst)) ∧
+      (planSorted ord fl t').skips = skippedRoot t' ++ skippedRoot t' := by
+  cases he : (unpackMain ord fl t root flt cwd₀ fs₀).established with
+  | false => rw [(main_not_established ord fl t root flt cwd₀ fs₀ he).2.1] at h; cases h
+  | true =>
+    obtain ⟨t', i, hs, _, htr, hex, _⟩ := main_established ord fl t root flt cwd₀ fs₀ he
+    rw [hex] at h
+    have hok : (run flt (unpackMain ord fl t root flt cwd₀ fs₀).cwd i (unpackMain ord fl t root flt cwd₀ fs₀).fsEst
+        (planSorted ord fl t').syscalls).failed = false ∧ (planSorted ord fl t').err = none := by
+      cases hf : (run flt (unpackMain ord fl t root flt cwd₀ fs₀).cwd i (unpackMain ord fl t root flt cwd₀ fs₀).fsEst
+          (planSorted ord fl t').syscalls).failed with
+      | true => rw [hf] at h; simp at h
+      | false =>
+        cases hpe : (planSorted ord fl t').err with
+        | none => exact ⟨rfl, rfl⟩
+        | some er => rw [hf, hpe] at h; simp at h
+    obtain ⟨hmap, hfine⟩ := (run_spec flt _ _ i _).1 hok.1
+    have hn' : isFilenameSane t'.name = true := by rw [treeSort_name t t' hs]; exact hsane
+    obtain ⟨hnodes, hskips⟩ := planSorted_complete ord hall fl t' hn' hok.2
+    rw [htr]
+    refine ⟨t', hs, hok.2, hmap, hfine, ?_, hskips⟩
+    intro c n hm
+    obtain ⟨_, hcr, hreg, _, hattr⟩ := hnodes c n hm
+    rw [hmap]
+    refine ⟨Out.mem_syscalls.2 hcr, fun hr => Out.mem_syscalls.2 (hreg hr).2, fun sc hsc => Out.mem_syscalls.2 (hattr _ hsc)⟩
+
+/-- conversely, the plan's own errors and failing calls are the only ways to `EXIT_FAILURE` once the walks are reached:
+    if no walk has an error of its own and every call made is fine, the exit status is `EXIT_SUCCESS` -/
+theorem exit_zero_of_all_fine (ord : List FileEnt → List FileEnt) (fl : Flags) (t t' : TNode) (root : Option Bytes)
+    (flt : Faults) (cwd₀ : PathC) (fs₀ : Fs) (hs : treeSort t = .ok t')
+    (he : (unpackMain ord fl t root flt cwd₀ fs₀).established = true) (hp : (planSorted ord fl t').err = none)
+    (hfine : ∀ x ∈ (unpackMain ord fl t root flt cwd₀ fs₀).trace, Fine x) :
+    (unpackMain ord fl t root flt cwd₀ fs₀).exit = 0 := by
+  obtain ⟨t'', i, hs', _, htr, hex, _⟩ := main_established ord fl t root flt cwd₀ fs₀ he
+  have : t'' = t' := by rw [hs] at hs'; cases hs'; rfl
+  subst this
+  rw [hex, hp]
+  rw [htr] at hfine
+  cases hf : (run flt (unpackMain ord fl t root flt cwd₀ fs₀).cwd i (unpackMain ord fl t root flt cwd₀ fs₀).fsEst
+      (planSorted ord fl t'').syscalls).failed with
+  | false => rfl
+  | true =>
+    obtain ⟨pre, sc, e, post, ha, hb, _, _⟩ := (run_spec flt _ _ i _).2 hf
+    have := hfine (sc, some e) (by rw [ha]; simp)
+    rcases this with h0 | ⟨e', h1, h2⟩
+    · cases h0
+    · cases h1; rw [hb] at h2; cases h2
+
+/-- every refused entry is reported exactly once by the create walk, in walk order (multiplicity, not only membership) -/
+theorem skip_reports_exact (fl : Flags) (t : TNode) (h : (restoreFstree fl t).err = none) :
+    (restoreFstree fl t).skips = skippedRoot t :=
+  (restoreFstreeN_complete fl t h).2
+
+/-! ### confinement from a weaker hypothesis on R; the modelled fill order -/
+
+/-- **Confinement without freshness.**  The unpack root may hold anything — files, directories, devices, sockets, e.g. what
+    an earlier run left — as long as no *symbolic link* sits strictly below it: then, whatever fails, the run leaves
+    everything that is not strictly below `R` unchanged.  (`Fresh fs₀ R` implies `NoLinkBelow fs₀ R`;
+    `Witness.C06.prepopulated_symlink_escapes` shows that this hypothesis cannot be dropped.) -/
+theorem confinement_without_symlinks_below (ord : List FileEnt → List FileEnt) (hord : OrdOK ord) (fl : Flags) (t : TNode)
+    (R : PathC) (fs₀ : Fs) (h : NoLinkBelow fs₀ R) : ConfinedF R fs₀ (unpackTree ord fl t).syscalls := by
+  intro flt i
+  cases hs : treeSort t with
+  | error e => rw [unpackTree_dup ord fl t e hs]; rfl
+  | ok t' =>
+    exact (InvW.run (visitRoot_fun (treeSort_nodup t t' hs)) (visitRoot_prefix t') flt _ i fs₀ (InvW.start h)
+      (unpackTree_ops ord hord fl t t' hs)).outside_eq
+
+/-- `main`, end to end, from the weaker hypothesis: if the directory the process stands in after `chdir(R)` has no symbolic
+    link below it, the rest of the run changes nothing that is not strictly below it -/
+theorem main_confinement_weak (ord : List FileEnt → List FileEnt) (hord : OrdOK ord) (fl : Flags) (t : TNode) (root : Option Bytes)
+    (flt : Faults) (cwd₀ : PathC) (fs₀ : Fs)
+    (h : NoLinkBelow (unpackMain ord fl t root flt cwd₀ fs₀).fsEst (unpackMain ord fl t root flt cwd₀ fs₀).cwd) :
+    outside (unpackMain ord fl t root flt cwd₀ fs₀).cwd (unpackMain ord fl t root flt cwd₀ fs₀).fs =
+      outside (unpackMain ord fl t root flt cwd₀ fs₀).cwd (unpackMain ord fl t root flt cwd₀ fs₀).fsEst := by
+  cases he : (unpackMain ord fl t root flt cwd₀ fs₀).established with
+  | false => rw [(main_not_established ord fl t root flt cwd₀ fs₀ he).2.2]
+  | true =>
+    obtain ⟨t', i, hs, hfs, _⟩ := main_established ord fl t root flt cwd₀ fs₀ he
+    rw [hfs, ← unpackTree_eq ord fl hs]
+    exact confinement_without_symlinks_below ord hord fl t _ _ h flt i
+
+/-- freshness is a special case -/
+theorem fresh_implies_no_link_below (fs : Fs) (R : PathC) (h : Fresh fs R) : NoLinkBelow fs R := h.noLinkBelow
+
+/-- the model of `qsort(compare_files)` (images without fragments) is a fill order in the sense of the theorems: it
+    invents no entry (`OrdOK`) and loses none (`OrdAll`) -/
+theorem ordByLoc_is_a_fill_order : OrdOK ordByLoc ∧ OrdAll ordByLoc := ordByLoc_ok
 
 /-! ### non-vacuity and sanity of the model -/
 
@@ -181,6 +381,69 @@ example : (exec [Rn] fs0 [.symlink DD A, .mkdir A 0o755, .openExcl [97, 47, 98] 
   decide
 -- whereas the real plan leaves /x alone
 example : (exec [Rn] fs0 (unpackPlan (hostile false) { chmod := true }).syscalls) [X] = some ⟨.file [1], {}⟩ := by decide
+/-! non-vacuity of the `main` theorems -/
+
+/-- `/` a directory, `/x` a file; no `/R` yet -/
+private def fs1 : Fs := fun q => if q = [] then some ⟨.dir, {}⟩ else if q = [X] then some ⟨.file [1], {}⟩ else none
+/-- the same with `/R` a regular file -/
+private def fs2 : Fs := fun q => if q = [] then some ⟨.dir, {}⟩ else if q = [X] ∨ q = [Rn] then some ⟨.file [1], {}⟩ else none
+/-- `/R` a symbolic link to `/x`… which is a file -/
+private def fs3 : Fs := fun q =>
+  if q = [] then some ⟨.dir, {}⟩ else if q = [X] then some ⟨.file [1], {}⟩ else if q = [Rn] then some ⟨.symlink [SL, 120], {}⟩ else none
+
+-- `-p R` with R absent: `mkdir_p` makes it, `chdir` enters it, the image is unpacked, exit status 0
+example : (unpackMain id { chmod := true } (hostile false) (some Rn) noFaults [] fs1).established = true ∧
+    (unpackMain id { chmod := true } (hostile false) (some Rn) noFaults [] fs1).exit = 0 ∧
+    (unpackMain id { chmod := true } (hostile false) (some Rn) noFaults [] fs1).cwd = [Rn] ∧
+    (unpackMain id { chmod := true } (hostile false) (some Rn) noFaults [] fs1).pre = [(.mkdir Rn 0o755, none)] ∧
+    (unpackMain id { chmod := true } (hostile false) (some Rn) noFaults [] fs1).fs [X] = some ⟨.file [1], {}⟩ := by decide
+-- `-p R` with R a regular file: `mkdir` says EEXIST (tolerated), `chdir` says ENOTDIR — the hypotheses of
+-- `failed_chdir_writes_nothing` hold, no call of a walk is made
+example : (unpackMain id {} (hostile false) (some Rn) noFaults [] fs2).chdirRes = some (some .ENOTDIR) ∧
+    (unpackMain id {} (hostile false) (some Rn) noFaults [] fs2).pre = [(.mkdir Rn 0o755, some .EEXIST)] ∧
+    (unpackMain id {} (hostile false) (some Rn) noFaults [] fs2).trace = [] ∧
+    (unpackMain id {} (hostile false) (some Rn) noFaults [] fs2).exit = 1 := by decide
+-- … and with R a symbolic link to a file
+example : (unpackMain id {} (hostile false) (some Rn) noFaults [] fs3).chdirRes = some (some .ENOTDIR) ∧
+    (unpackMain id {} (hostile false) (some Rn) noFaults [] fs3).established = false := by decide
+-- an unprivileged user: the 3rd call after `mkdir`, `chdir` (call number 4) is refused with EPERM — it is the last call, exit status 1
+example : (unpackMain id {} (hostile false) (some Rn) (fun i => if i = 4 then some .EPERM else none) [] fs1).exit = 1 ∧
+    (unpackMain id {} (hostile false) (some Rn) (fun i => if i = 4 then some .EPERM else none) [] fs1).trace =
+      [(.symlink upX A, none), (.mkdir B 0o755, none), (.openExcl [98, 47, 97] 0o644, some .EPERM)] := by decide
+-- a data block that cannot be read: the file is opened, 1 byte is written, the run ends (no attribute phase)
+example : (unpackPlan (.mk [] .dir [] {} [.mk A .reg [1, 2, 3] { copyFail := some 1 } [], .mk B .reg [4] {} []]) { chmod := true }).evs =
+      [.sys (.openExcl A 0o200), .sys (.openExcl B 0o200), .sys (.openTrunc A [1])] ∧
+    (unpackPlan (.mk [] .dir [] {} [.mk A .reg [1, 2, 3] { copyFail := some 1 } [], .mk B .reg [4] {} []]) { chmod := true }).err = some .dataRead := by
+  decide
+-- an xattr key that cannot be read after the first pair
+example : (unpackPlan (.mk [] .dir [] {} [.mk A .reg [] { xattrs := [(X, [1]), (B, [2])], xattrFail := some 1 } []]) { setXattr := true, setTimes := true }).evs =
+      [.sys (.openExcl A 0o644), .sys (.openTrunc A []), .sys (.setxattr A X [1] true)] ∧
+    (unpackPlan (.mk [] .dir [] {} [.mk A .reg [] { xattrs := [(X, [1]), (B, [2])], xattrFail := some 1 } []]) { setXattr := true, setTimes := true }).err = some .xattrRead := by
+  decide
+-- mkdir_p.c: "//a//b/" → mkdir "/a", "/a/", "/a//b", "/a//b/";  "" and "/" → nothing
+example : mkdirPCuts [SL, SL, 97, SL, SL, 98, SL] = [[SL, 97], [SL, 97, SL], [SL, 97, SL, SL, 98], [SL, 97, SL, SL, 98, SL]] ∧
+    mkdirPCuts [] = [] ∧ mkdirPCuts [SL] = [] ∧ mkdirPCuts [SL, SL, SL] = [] ∧ mkdirPCuts [97, SL, 98] = [[97], [97, SL, 98]] := by decide
+/-- `/R` holds a file and a directory with a file (left by an earlier run), no symbolic link: not fresh, but `NoLinkBelow` -/
+private def fs4 : Fs := fun q =>
+  if q = [] ∨ q = [Rn] ∨ q = [Rn, B] then some ⟨.dir, {}⟩ else if q = [X] ∨ q = [Rn, A] ∨ q = [Rn, B, A] then some ⟨.file [1], {}⟩ else none
+
+example : NoLinkBelow fs4 [Rn] ∧ ¬ Fresh fs4 [Rn] := by
+  refine ⟨⟨⟨_, rfl⟩, ?_⟩, ?_⟩
+  · intro p _ t a
+    unfold fs4
+    split
+    · intro e; cases e
+    · split
+      · intro e; cases e
+      · intro e; cases e
+  · intro h
+    have := h.2 [Rn, A] (by decide)
+    revert this
+    decide
+-- unpacking into it: `symlink a` meets the old file (EEXIST), the run ends there, exit status 1, `/x` untouched
+example : (unpackMain id {} (hostile false) (some Rn) noFaults [] fs4).exit = 1 ∧
+    (unpackMain id {} (hostile false) (some Rn) noFaults [] fs4).trace = [(.symlink upX A, some .EEXIST)] ∧
+    (unpackMain id {} (hostile false) (some Rn) noFaults [] fs4).fs [X] = some ⟨.file [1], {}⟩ := by decide
 end examples
 
 end Sqfs.C06
